@@ -405,6 +405,11 @@ def check_case(case, ctx):
             client = c2p.HttpOptionsBlock(header=[(v[4], v[5])], parameter=[(v[6], v[7])],
                                           metadata=c2p.DataTransformBlock(steps=["base64url", ("prepend", v[8]), ("header", v[9])]))
             server = c2p.HttpOptionsBlock(header=[(v[4], v[5])], output=c2p.DataTransformBlock(steps=["mask", "print"]))
+            # (the empty cases of the list constructors build the same as the bare constructors)
+            if c2p.ExecuteOptionsBlock.from_execute_list().tree != c2p.ExecuteOptionsBlock().tree or \
+                    c2p.ExecuteOptionsBlock.from_execute_list([]).tree != c2p.ExecuteOptionsBlock().tree or \
+                    c2p.DataTransformBlock(steps=None).tree != c2p.DataTransformBlock().tree:
+                raise AssertionError("empty list constructor differs from the bare constructor")
             pinj = c2p.ProcessInjectBlock(min_alloc=v[10], execute=c2p.ExecuteOptionsBlock.from_execute_list(
                 [("CreateThread", v[11]), "NtQueueApcThread-s", "SetThreadContext", ("CreateRemoteThread", v[11]), "RtlCreateUserThread"]))
             stage = c2p.StageBlock(userwx=v[12], transform_x86=c2p.StageTransformBlock(prepend=v[8], strrep=[(v[4], v[5])]))
